@@ -10,10 +10,83 @@ REPO = os.environ.get('QSC_REPO', '/repo')
 ALLOWED_FOR_ITERS = {'range(3)', 'range(nphi)', 'range(self.nphi)', '[-1, 1]', 'points'}
 
 
+LOG_ROOTS = {'logger', 'logging', 'warnings', 'print'}
+
+
+def is_log_only(stmts):
+    """statements without any effect on the computation: logging / warnings / print calls, pass, docstrings"""
+    for st in stmts:
+        if isinstance(st, ast.Pass):
+            continue
+        if isinstance(st, ast.Expr) and isinstance(st.value, ast.Constant):
+            continue
+        if isinstance(st, ast.Expr) and isinstance(st.value, ast.Call):
+            f = st.value.func
+            while isinstance(f, ast.Attribute):
+                f = f.value
+            if isinstance(f, ast.Name) and f.id in LOG_ROOTS:
+                continue
+        return False
+    return True
+
+
+class _Alpha(ast.NodeTransformer):
+    """bare names (locals) -> `_`; attributes of self, module names and callables keep their spelling"""
+    KEEP = {'self', 'np', 'abs', 'max', 'min', 'sum', 'len', 'range', 'True', 'False', 'None', 'qsc', 'logger'}
+
+    def visit_Name(self, node):
+        return node if node.id in self.KEEP else ast.copy_location(ast.Name(id='_', ctx=node.ctx), node)
+
+
+def alpha(src):
+    """alpha-normalised spelling of an expression: renaming local variables does not change it"""
+    try:
+        t = ast.parse(src, mode='eval')
+    except SyntaxError:
+        return src
+    return ast.unparse(_Alpha().visit(t))
+
+
+def norm_iter(it):
+    """`range(0, n)` and `range(n)` are the same iteration"""
+    if it.startswith('range(0, '):
+        return 'range(' + it[len('range(0, '):]
+    return it
+
+
+def stmt_matches(pattern, st, first):
+    """does statement `st` (first line `first`) match a configured prefix?  Exact prefix first; then, so that renaming a
+    local does not break the tie: a `for` header is matched by its iterator alone, and an assignment `name = <text>` by the
+    alpha-normalised right-hand side when the pattern carries one."""
+    if first.startswith(pattern):
+        return True
+    if pattern.startswith('for ') and isinstance(st, ast.For) and ' in ' in pattern:
+        it = pattern.split(' in ', 1)[1].rstrip(':').strip()
+        return norm_iter(ast.unparse(st.iter)) == norm_iter(it)
+    if ' = ' in pattern and isinstance(st, ast.Assign):
+        rhs = pattern.split(' = ', 1)[1].strip()
+        if len(rhs) >= 8:          # a real right-hand-side fragment, not just `name = `
+            cur = ast.unparse(st.value)
+            return cur.startswith(rhs) or alpha(cur).startswith(alpha_prefix(rhs))
+    return False
+
+
+def alpha_prefix(frag):
+    """alpha-normalise a possibly incomplete expression fragment (used as a prefix)"""
+    for closing in ('', ')', '))', ']', '])'):
+        try:
+            ast.parse(frag + closing, mode='eval')
+            a = alpha(frag + closing)
+            return a[:len(a) - len(closing)] if closing else a
+        except SyntaxError:
+            continue
+    return frag
+
+
 class Rewriter(ast.NodeTransformer):
     """if-tests go through the branch oracle, for-loops are vetted, configured statements are skipped/havocked"""
-    def __init__(self, cfg, fname):
-        self.cfg, self.fname = cfg, fname
+    def __init__(self, cfg, fname, capture=True):
+        self.cfg, self.fname, self.capture = cfg, fname, capture
 
     def _stmts(self, body):
         out = []
@@ -21,13 +94,19 @@ class Rewriter(ast.NodeTransformer):
             txt = ast.unparse(st)
             first = txt.split('\n')[0]
             stop = self.cfg.get('stop_at')
-            if stop and first.startswith(stop):
+            stops = [stop] if isinstance(stop, str) else list(stop or ())
+            if any(stmt_matches(sp, st, first) for sp in stops):
                 break
             hit = None
             for pre, hv in self.cfg.get('skip', {}).items():
                 if first.startswith(pre):
                     hit = hv
                     break
+            if hit is None:
+                for pre, hv in self.cfg.get('skip', {}).items():
+                    if stmt_matches(pre, st, first):
+                        hit = hv
+                        break
             if hit is not None:
                 for target, symname in hit:
                     out.append(ast.parse('%s = __havoc__(%r)' % (target, symname)).body[0])
@@ -39,18 +118,21 @@ class Rewriter(ast.NodeTransformer):
         if node.name != self.fname:
             return node
         node.body = self._stmts(node.body)
-        node.body.append(ast.parse('__cap__(locals())').body[0])
+        if self.capture:
+            node.body.append(ast.parse('__cap__(locals())').body[0])
         return node
 
     def visit_If(self, node):
         src = ast.unparse(node.test)
+        if src not in self.cfg.get('branches', {}) and is_log_only(node.body) and is_log_only(node.orelse):
+            return ast.copy_location(ast.Pass(), node)       # a diagnostic message only: no effect on the model
         node.test = ast.Call(func=ast.Name(id='__br__', ctx=ast.Load()), args=[self.visit(node.test), ast.Constant(src)], keywords=[])
         node.body = self._stmts(node.body)
         node.orelse = self._stmts(node.orelse)
         return node
 
     def visit_For(self, node):
-        it = ast.unparse(node.iter)
+        it = norm_iter(ast.unparse(node.iter))
         if it not in ALLOWED_FOR_ITERS and it not in self.cfg.get('allow_for', ()):
             raise TraceAbort('%s: for-loop over %r is neither translatable nor configured as hand-modelled' % (self.fname, it))
         node.body = self._stmts(node.body)
@@ -60,6 +142,8 @@ class Rewriter(ast.NodeTransformer):
         raise TraceAbort('%s: while-loop in translated code' % self.fname)
 
     def visit_Return(self, node):
+        if not self.capture:
+            return self.generic_visit(node)
         val = node.value if node.value is not None else ast.Constant(None)
         node.value = ast.Call(func=ast.Name(id='__ret__', ctx=ast.Load()), args=[val, ast.Call(func=ast.Name(id='locals', ctx=ast.Load()), args=[], keywords=[])], keywords=[])
         return node
@@ -176,6 +260,18 @@ class Tracer:
         m = ast.Module(body=[fn], type_ignores=[])
         ast.fix_missing_locations(m)
         ns = self.namespace(cfg)
+        # private helpers defined next to the function (an extracted sub-expression, a shared formula): executed from
+        # the current source like the function itself, without capturing their locals.  One that cannot be rewritten is
+        # left out; calling it then aborts the translation as an undefined name.
+        for h in tree.body:
+            if isinstance(h, ast.FunctionDef) and h.name != fname and h.name not in ns and h.name not in self.functions:
+                try:
+                    h.decorator_list = []
+                    hm = ast.Module(body=[Rewriter(cfg, h.name, capture=False).visit(h)], type_ignores=[])
+                    ast.fix_missing_locations(hm)
+                    exec(compile(hm, '%s.py:%s' % (mod, h.name), 'exec'), ns)
+                except Exception:
+                    pass
         exec(compile(m, '%s.py:%s' % (mod, fname), 'exec'), ns)
         return ns[fname]
 
@@ -188,6 +284,12 @@ class Tracer:
                 dec = cfg.get('branches', {})
                 if src in dec:
                     return dec[src]
+                # the same test with locals renamed: decided as configured, provided the alpha-normalised spelling
+                # identifies one decision only
+                a = alpha(src)
+                cands = {v for k, v in dec.items() if alpha(k) == a}
+                if len(cands) == 1:
+                    return cands.pop()
                 raise TraceAbort('data-dependent branch `%s` has no configured decision' % src)
             if val is None or isinstance(val, (int, str)):
                 return bool(val)
